@@ -63,13 +63,13 @@ fn run(args: &[String]) -> Result<i32, String> {
         // hammer: back-to-back evaluations of the call-free rules on every thread; burst: all threads start an evaluation
         // of a 600-call ruleset at the same instant
         let only: Option<&str> = args.get(6).map(|s| s.as_str());
-        for mode in ["tokio", "tokio4", "std", "migrate", "hammer", "burst"] {
+        for mode in ["tokio", "tokio4", "std", "migrate", "hammer", "hammer_calls", "burst"] {
             if let Some(o) = only {
                 if !o.split(',').any(|m| m == mode) {
                     continue;
                 }
             }
-            let n = match mode { "tokio4" => n_evals * 10, "migrate" => n_evals * 3, "hammer" => n_evals * 150, "burst" => 3, _ => n_evals };
+            let n = match mode { "tokio4" => n_evals * 10, "migrate" => n_evals * 3, "hammer" => n_evals * 150, "hammer_calls" => n_evals * 15, "burst" => 3, _ => n_evals };
             let r = threads::run_case(case, n_threads, n, mode)?;
             rep.evaluations += r.evaluations;
             for m in r.mismatches {
